@@ -162,6 +162,13 @@ func cutsToChunks(cuts []int) []int {
 }
 
 func emitCodec(tr *Trace, codec, cut string, sent []string, recv []string, err error) {
+	ln := codecLine(codec, cut, sent, recv)
+	ln["err"] = errText(err)
+	tr.emit(ln)
+}
+
+// codecLine compares what was written with what was read: in order, and as multisets (for concurrent writers).
+func codecLine(codec, cut string, sent []string, recv []string) J {
 	same := len(sent) == len(recv)
 	if same {
 		for i := range sent {
@@ -199,8 +206,8 @@ func emitCodec(tr *Trace, codec, cut string, sent []string, recv []string, err e
 			missing += v
 		}
 	}
-	tr.emit(J{"ev": "codec", "codec": codec, "cut": cut, "n": len(sent), "nrecv": len(recv), "same": same, "dup": dup, "foreign": foreign, "conc": strings.HasPrefix(cut, "concurrent"),
-		"missing": missing, "err": errText(err)})
+	return J{"ev": "codec", "codec": codec, "cut": cut, "n": len(sent), "nrecv": len(recv), "same": same, "dup": dup, "foreign": foreign, "conc": strings.HasPrefix(cut, "concurrent"),
+		"missing": missing, "err": ""}
 }
 
 func ioCases(tr *Trace, rng *rand.Rand, cases int) {
